@@ -1668,6 +1668,10 @@ def schedule_passes(nng: Graph, arch: ArchitectureFeatures, options, scheduler_o
             initial_sram_limit = scheduler.sram_limit
             if scheduler_options.optimization_strategy == OptimizationStrategy.Size:
                 initial_sram_limit = scheduler.min_memory_req
+                if arch.is_spilling_enabled():
+                    # Dedicated SRAM: the full feature maps are not in the SRAM at all and the size of the SRAM is a hard
+                    # limit for the buffers of the cascades
+                    initial_sram_limit = min(initial_sram_limit, scheduler.sram_limit)
 
             # Build cascades for Min schedule
             progress_print(verbose_progress, "Building cascades for minimal schedule")
